@@ -776,6 +776,7 @@ func runC20(c *Ctx) {
 	shareRule(c, "C10", runC10, []string{"C10.R1"}, "R8", "ORD+GATE", "service.Shutdown stops pipelines, extensions and telemetry on every path (same rule as C10.R1): when Run ends, or a configuration cannot be brought up, every started component is shut down", 8)
 	shareRule(c, "C11", runC11, []string{"C11.R1"}, "R9", "TAB", "the status state machine lets FatalError be reported from every non-final state (same table rule as C11.R1): an asynchronous fatal component error always reaches the collector and stops Run", 20)
 	runC20Round3(c)
+	runC20Round4(c)
 }
 
 func constantInt64(c *types.Const) (int64, bool) {
